@@ -54,6 +54,13 @@ def step (st : St) (ws : List String) : St × Resp :=
       | _ => showMatches (matchesFromCounter (diskCounter roaringCodec st.disk Q) t)
     -- spec: the entries of the exact counter meeting the threshold, by (count desc, id)
     (st, { model := m, spec := showMatches (mostCommon (refMatches (refCounter st.C Q) t)) })
+  | ["cntq", t, qs, q] =>
+    -- mem index built with `queries = Some(qs)`: exact for a query covered by `qs`
+    let Q := natList q
+    let m := match (balanced (List.range st.C.length)).evalQ st.C (parseColl qs) t.toNat! with
+      | some r => showCounter (memCounter r Q)
+      | none => "PANIC"
+    (st, { model := m, spec := showCounter (refCounter st.C Q) })
   | ["capi", q, num, k, _] =>
     let Q := natList q
     let thr := findThreshold num.toNat! k.toNat! Q.length
